@@ -74,6 +74,16 @@ T = {
  "C10c-2": ("C10", "-N placed before a subcommand overrides its mode", "the real binary invoked as `txtpp -N verify` or `txtpp -N clean`"),
  "C18c-1": ("C18", "bounded result channel of 256 slots", "an error while more than 256 results are outstanding"),
  "C18c-2": ("C18", "add_line compares char count but slices by byte length", "a multi-line-capable directive with a non-ASCII prefix followed by a short space-indented line"),
+ "C01c-1": ("C01", "line-ending detection reads at most 8 KiB of the first line", "a CRLF source whose first line is longer than 8190 bytes"),
+ "C01c-2": ("C01", "a command killed by a signal counts as success", "the shell of a run command dies from a signal"),
+ "C05c-1": ("C05", "self-include reported as an error in the first pass (fail fast)", "a cycle of length one plus an acyclic file still waiting for its final pass when the error is received"),
+ "C05c-2": ("C05", "a debug log statement drains the dependency graph before the cycle check", "a logger enabled at debug level (RUST_LOG=debug for the binary, any logger for the library)"),
+ "C07c-1": ("C07", "in clean mode only temp directives are kept open, so continuation lines are parsed on their own", "a multi-line write/run/empty block containing a line that looks like a temp directive naming an existing file"),
+ "C07c-2": ("C07", "-N placed before a subcommand overrides its mode", "the real binary invoked as `txtpp -N clean`"),
+ "C11c-1": ("C11", "directory scan tests the entry name before its type", "recursion on and a directory whose name looks like a txtpp source (partials.txtpp/)"),
+ "C11c-2": ("C11", "dependency paths are not canonicalised", "a dependency written with `..` and the same source also reached by scan, input or another dependent"),
+ "C17c-1": ("C17", "base directory stripped from paths as a string prefix", "a source outside the base in a sibling directory whose name extends the base's name, and a command reading TXTPP_FILE"),
+ "C17c-2": ("C17", "shell option tokenised on single spaces", "an overridden shell string with two blanks, a tab or a trailing blank"),
 }
 
 def main():
